@@ -82,6 +82,8 @@ type RawReq struct {
 	Target string              `json:"target"` // request URI: escaped path and raw query
 	Header map[string][]string `json:"header,omitempty"`
 	Body   string              `json:"body,omitempty"`
+	// the body arrives with chunked transfer encoding: its length is not known up front (ContentLength -1)
+	Chunked bool `json:"chunked,omitempty"`
 }
 
 type ClientCall struct {
@@ -311,6 +313,22 @@ func run(pkgs map[string]Package, sc *Scenario) (res Result) {
 			res.Err = "no GetSwagger in package"
 			return
 		}
+		// an earlier caller that changes the document it got (the usual `swagger.Servers = nil` before building a request
+		// validator, and here also the title and the path table): the document a LATER call returns must still be the input
+		if first := reflect.ValueOf(fn).Call(nil); first[1].IsNil() && first[0].Kind() == reflect.Ptr && !first[0].IsNil() {
+			doc := first[0].Elem()
+			if f := doc.FieldByName("Servers"); f.IsValid() && f.CanSet() {
+				f.Set(reflect.Zero(f.Type()))
+			}
+			if f := doc.FieldByName("Paths"); f.IsValid() && f.CanSet() {
+				f.Set(reflect.Zero(f.Type()))
+			}
+			if f := doc.FieldByName("Info"); f.IsValid() && f.Kind() == reflect.Ptr && !f.IsNil() {
+				if t := f.Elem().FieldByName("Title"); t.IsValid() && t.CanSet() && t.Kind() == reflect.String {
+					t.SetString("changed by an earlier caller")
+				}
+			}
+		}
 		outs := reflect.ValueOf(fn).Call(nil)
 		if !outs[1].IsNil() {
 			res.Err = "GetSwagger: " + outs[1].Interface().(error).Error()
@@ -426,8 +444,17 @@ func serve(p Package, sc *Scenario, req *http.Request, res *Result) {
 		body, _ = io.ReadAll(req.Body)
 	}
 	again := func() *http.Request {
-		r2 := httptest.NewRequest(req.Method, req.URL.RequestURI(), bytes.NewReader(body))
+		var rd io.Reader = bytes.NewReader(body)
+		chunked := sc.Req != nil && sc.Req.Chunked
+		if chunked {
+			rd = struct{ io.Reader }{rd} // an opaque reader: NewRequest cannot know the length
+		}
+		r2 := httptest.NewRequest(req.Method, req.URL.RequestURI(), rd)
 		r2.Header = req.Header.Clone()
+		if chunked {
+			r2.ContentLength = -1
+			r2.TransferEncoding = []string{"chunked"}
+		}
 		return r2
 	}
 	for i := 0; i < sc.Opts.Warmup; i++ {
